@@ -14,16 +14,16 @@ inductive Name
   | tupleElem (i : Nat)       -- `__tuple_elem_i`
   | mapValue                  -- `__map_value`
   | setElem                   -- `__set_elem`
-  | field (f : FieldName)     -- a destructured struct field, bound under its own name
+  | field (f : FieldName)     -- a destructured struct field: `__assert_struct_field_<field>`
   | rootValue                 -- `__assert_struct_value`: a reference to the asserted expression
   deriving DecidableEq, Repr, Inhabited
 
 def Name.render : Name → String
-  | .elem i => s!"__elem_{i}"
-  | .tupleElem i => s!"__tuple_elem_{i}"
+  | .elem i => "__elem_" ++ toString i
+  | .tupleElem i => "__tuple_elem_" ++ toString i
   | .mapValue => "__map_value"
   | .setElem => "__set_elem"
-  | .field f => f.toString
+  | .field f => "__assert_struct_field_" ++ f.toString
   | .rootValue => "__assert_struct_value"
 
 /-- Prefix operators spliced in front of a value expression. -/
